@@ -199,7 +199,7 @@ def check_history(xs: List[int], ops: List[int], k: int) -> bool:
     valid = False        # model: a complete cache is stored
     with world([cache_mod]) as fs:
         for op in ops:
-            o = op % 4
+            o = 0 if op <= 0 else (1 if op == 1 else (2 if op == 2 else 3))
             up = Up()
             if o == 0 or o == 2:
                 c = new_cache(fs, recompute=(o == 2))
